@@ -6,10 +6,10 @@ import (
 	"fmt"
 	"os"
 	"os/exec"
-	"syscall"
 	"path/filepath"
 	"sort"
 	"strings"
+	"syscall"
 	"testing"
 
 	"pault.ag/go/debian/control"
@@ -41,8 +41,8 @@ type UploadCase struct {
 	Handle    string   `json:"handle"` // dsc | changes
 	Files     []UpFile `json:"files"`
 	Ops       []UpOp   `json:"ops"`
-	Fault     string   `json:"fault"`     // none | src-missing | src-is-dir | dst-squatted | dst-missing | dst-is-file
-	FaultStep int      `json:"faultStep"` // index into Files, len(Files) = the control file itself
+	Fault     string   `json:"fault"`                   // none | src-missing | src-is-dir | dst-squatted | dst-missing | dst-is-file
+	FaultStep int      `json:"faultStep"`               // index into Files, len(Files) = the control file itself
 	FilenameF string   `json:"filenameField,omitempty"` // adversarial "Filename:" field ("" = none; value relative to root)
 	// Stale: before the first operation, destination d1/d2 already hold files with the names of the
 	// upload (same length, different bytes, not older) - a re-upload over leftovers.
@@ -61,6 +61,9 @@ type UploadCase struct {
 	// adversarial ones included). Whatever the library takes "referenced" to mean then, nothing
 	// outside may be touched.
 	Layout string `json:"layout,omitempty"`
+	// Spelling: how the path given to ParseDscFile / ParseChangesFile spells the control file's
+	// location: 0 clean, 1 ".../src/./name", 2 ".../src/../src/name", 3 "...//src/name"
+	Spelling int `json:"spelling,omitempty"`
 }
 
 // otherFileSystemDir returns a fresh directory on a file system different from the one of ref, or "".
@@ -137,6 +140,9 @@ func genUploadCase(t *rapid.T) UploadCase {
 	}
 	if rapid.IntRange(0, 5).Draw(t, "dstLink") == 0 && last.Kind != "remove" {
 		c.DstLink = 1 + rapid.IntRange(0, len(c.Files)).Draw(t, "dstLinkAt")
+	}
+	if rapid.IntRange(0, 3).Draw(t, "spelled") == 0 {
+		c.Spelling = rapid.IntRange(1, 3).Draw(t, "spelling")
 	}
 	if rapid.IntRange(0, 7).Draw(t, "selfListed") == 0 {
 		c.SelfAt = 1 + rapid.IntRange(0, len(c.Files)).Draw(t, "selfAt")
@@ -285,7 +291,7 @@ func checkUploadCase(c UploadCase, r *Recorder) error {
 	if nt {
 		r.Sample(c)
 	}
-	root, err := os.MkdirTemp("", "c20-")
+	root, err := os.MkdirTemp(workDir(), "c20-")
 	if err != nil {
 		return errf("HARNESS: %v", err)
 	}
@@ -341,23 +347,32 @@ func checkUploadCase(c UploadCase, r *Recorder) error {
 		}
 	}
 
+	openPath := ctlPath
+	switch c.Spelling {
+	case 1:
+		openPath = filepath.Join(root, "src") + "/./" + c.ctlName()
+	case 2:
+		openPath = filepath.Join(root, "src") + "/../src/" + c.ctlName()
+	case 3:
+		openPath = root + "//src/" + c.ctlName()
+	}
 	var h uploadHandle
 	var filenameOf func() string
 	if c.Handle == "dsc" {
-		d, err := control.ParseDscFile(ctlPath)
+		d, err := control.ParseDscFile(openPath)
 		if err != nil {
 			return errf("ParseDscFile(%q): %v", ctlText, err)
 		}
 		h, filenameOf = d, func() string { return d.Filename }
 	} else {
-		ch, err := control.ParseChangesFile(ctlPath)
+		ch, err := control.ParseChangesFile(openPath)
 		if err != nil {
 			return errf("ParseChangesFile(%q): %v", ctlText, err)
 		}
 		h, filenameOf = ch, func() string { return ch.Filename }
 		// the .dsc a .changes refers to lives next to it: a handle on one elsewhere would let
 		// Remove / Move loose on files outside the upload's directory
-		if d, err := ch.GetDSC(); err == nil && filepath.Dir(d.Filename) != filepath.Join(root, "src") {
+		if d, err := ch.GetDSC(); err == nil && filepath.Clean(filepath.Dir(d.Filename)) != filepath.Join(root, "src") {
 			return errf("GetDSC of a .changes listing %v returned a handle on %q, outside the upload's directory", upNames(c.Files), d.Filename)
 		}
 	}
@@ -589,7 +604,7 @@ func upNames(fs []UpFile) []string {
 
 var specC20 = Register(&Spec[UploadCase]{
 	Prop: "C20", Name: "upload",
-	Rule: "histories of 1..3 operations (Copy/Move into d1|d2, Remove) on one .dsc or .changes handle over a fresh scratch tree root/{src,src/sub,d1,d2,outside}; 0..5 referenced files (sizes 0, 1, 7, 300, 32767..32769, 100000; one plain name in twenty is 200..255 bytes long; one file in ten is listed with a size that is not its real one - the hashes are made up anyway, nothing in the statement makes Copy/Move verify either); a quarter of the uploads list adversarial names ('../outside/victim', '../d1/planted', 'sub/x', absolute, '..', '.', '/', '//', '../', 'sub/../../outside/victim') and/or carry a literal 'Filename:' field pointing elsewhere, and a third of those have no Files field at all (Checksums-Sha256 only) or list the adversarial names in Checksums-Sha256 only; in a quarter of the cases both destinations already hold same-named files of the same length with other bytes (leftovers of an earlier upload); in a fifth of the cases d2 is on another file system (/dev/shm, when there is one), where a Move may fail as a whole but must not half-succeed; in a sixth of the cases the destination of the last operation holds a planted symbolic link to root/outside/victim under the name of a referenced file or of the control file; in an eighth the control file lists itself (refusing is fine, but then nothing may have moved and the control file is not in the destination); an operation whose destination is the directory the upload already lives in (also spelled d1/../src/.) must leave that directory bit-identical whatever it returns; the last operation optionally runs with ONE planted fault at step i in {file 0..n-1, control file}: source deleted, source replaced by a non-empty directory, a non-empty directory squatting on the destination name, destination directory missing or a regular file. Oracle: success (plain names, no fault) => all files and the control file byte-identical in the destination (Move: gone from source; Remove: gone), handle.Filename == dest/base; fault => an error, no regular control file in the destination, for Move/Remove the control file intact at its source; always => root/outside bit-identical, no destination file carries outside content, d1/planted untouched when d1 is not involved. Non-trivial: >= 2 files with a fault at step >= 1, or non-plain names; distinct by case.",
+	Rule:  "histories of 1..3 operations (Copy/Move into d1|d2, Remove) on one .dsc or .changes handle over a fresh scratch tree root/{src,src/sub,d1,d2,outside}; 0..5 referenced files (sizes 0, 1, 7, 300, 32767..32769, 100000; one plain name in twenty is 200..255 bytes long; one file in ten is listed with a size that is not its real one - the hashes are made up anyway, nothing in the statement makes Copy/Move verify either); a quarter of the uploads list adversarial names ('../outside/victim', '../d1/planted', 'sub/x', absolute, '..', '.', '/', '//', '../', 'sub/../../outside/victim') and/or carry a literal 'Filename:' field pointing elsewhere, and a third of those have no Files field at all (Checksums-Sha256 only) or list the adversarial names in Checksums-Sha256 only; in a quarter of the cases both destinations already hold same-named files of the same length with other bytes (leftovers of an earlier upload); in a fifth of the cases d2 is on another file system (/dev/shm, when there is one), where a Move may fail as a whole but must not half-succeed; in a sixth of the cases the destination of the last operation holds a planted symbolic link to root/outside/victim under the name of a referenced file or of the control file; in an eighth the control file lists itself (refusing is fine, but then nothing may have moved and the control file is not in the destination); in a quarter the handle was opened under another spelling of its path (src/./x.dsc, src/../src/x.dsc, //src/x.dsc); an operation whose destination is the directory the upload already lives in (also spelled d1/../src/.) must leave that directory bit-identical whatever it returns; the last operation optionally runs with ONE planted fault at step i in {file 0..n-1, control file}: source deleted, source replaced by a non-empty directory, a non-empty directory squatting on the destination name, destination directory missing or a regular file. Oracle: success (plain names, no fault) => all files and the control file byte-identical in the destination (Move: gone from source; Remove: gone), handle.Filename == dest/base; fault => an error, no regular control file in the destination, for Move/Remove the control file intact at its source; always => root/outside bit-identical, no destination file carries outside content, d1/planted untouched when d1 is not involved. Non-trivial: >= 2 files with a fault at step >= 1, or non-plain names; distinct by case.",
 	Check: checkUploadCase,
 })
 
@@ -679,7 +694,7 @@ func (s straceSkip) Error() string { return "strace unavailable: " + s.why }
 // runUnderStrace prepares a fresh tree, runs the helper under strace and
 // returns the tree root (caller removes it), the trace and the helper result.
 func runUnderStrace(c StraceCase) (root string, trace []string, result string, err error) {
-	root, err = os.MkdirTemp("", "c20s-")
+	root, err = os.MkdirTemp(workDir(), "c20s-")
 	if err != nil {
 		return "", nil, "", errf("HARNESS: %v", err)
 	}
@@ -859,7 +874,7 @@ func checkStraceCase(c StraceCase, r *Recorder) error {
 
 var specC20Strace = Register(&Spec[StraceCase]{
 	Prop: "C20", Name: "strace",
-	Rule: "syscall-level fault enumeration: one Copy/Move/Remove of a generated plain upload is executed by a child process under strace -f -P <every source and destination path>; a fault-free run gives the history (the creation/rename/unlink of the control file must come after that of every referenced file, result byte-identical); then for EVERY call index of openat (EACCES), copy_file_range (ENOSPC), close (EIO), rename* (EACCES), unlink* (EACCES) touching those paths the run is repeated with that call failing, and again with the process killed (SIGKILL) at that call. Oracle: injected error => an error is reported (an ignored close() on a source descriptor is tolerated), no regular control file in the destination, for Move/Remove the control file intact at its source; crash => if the control file is visible in the destination every referenced file is complete there (Remove: control gone => all files gone). Skipped and counted when ptrace is unavailable. Non-trivial: a faulted run of an upload with >= 2 files; distinct by (upload, op, syscall, index, mode).",
+	Rule:  "syscall-level fault enumeration: one Copy/Move/Remove of a generated plain upload is executed by a child process under strace -f -P <every source and destination path>; a fault-free run gives the history (the creation/rename/unlink of the control file must come after that of every referenced file, result byte-identical); then for EVERY call index of openat (EACCES), copy_file_range (ENOSPC), close (EIO), rename* (EACCES), unlink* (EACCES) touching those paths the run is repeated with that call failing, and again with the process killed (SIGKILL) at that call. Oracle: injected error => an error is reported (an ignored close() on a source descriptor is tolerated), no regular control file in the destination, for Move/Remove the control file intact at its source; crash => if the control file is visible in the destination every referenced file is complete there (Remove: control gone => all files gone). Skipped and counted when ptrace is unavailable. Non-trivial: a faulted run of an upload with >= 2 files; distinct by (upload, op, syscall, index, mode).",
 	Check: checkStraceCase,
 })
 
